@@ -48,6 +48,10 @@ pub const HOSTS: &[(&str, bool)] = &[
 pub struct TlsCase {
     pub scheme: u8,
     pub host: u8,
+    /// a generated host (reqgrammar::generated_host_strategy) replacing the table entry; never
+    /// covered by the fixture certificates
+    #[serde(default)]
+    pub ghost: Option<String>,
     pub port: Option<u16>,
     /// 0 TLS server good cert, 1 TLS server cert for another name, 2 TLS server untrusted CA,
     /// 3 closes immediately, 4 speaks plaintext HTTP, 5 TLS server truncated after `arg` bytes,
@@ -349,7 +353,15 @@ impl Engine for TlsEngine {
         let mut rep = CaseReport::default();
         let _ = crate::panichook::take_all();
         let scheme = SCHEMES[c.scheme as usize % SCHEMES.len()];
-        let (host, in_san) = HOSTS[c.host as usize % HOSTS.len()];
+        let (host, in_san): (&str, bool) = match &c.ghost {
+            // generated names cannot spell a DNS name of the certificate; IP literals can equal its IP entries
+            Some(h) => (h.as_str(), {
+                let ip: Option<std::net::IpAddr> = h.trim_start_matches('[').trim_end_matches(']').parse().ok();
+                let sans: [std::net::IpAddr; 3] = ["127.0.0.1".parse().unwrap(), "::1".parse().unwrap(), "2001:db8::7".parse().unwrap()];
+                ip.map(|ip| sans.contains(&ip)).unwrap_or(false)
+            }),
+            None => HOSTS[c.host as usize % HOSTS.len()],
+        };
         let authority = match c.port {
             Some(p) => format!("{host}:{p}"),
             None => host.to_string(),
@@ -506,12 +518,12 @@ pub fn strategy() -> impl proptest::strategy::Strategy<Value = TlsCase> {
     use proptest::prelude::*;
     (
         prop_oneof![3 => Just(0u8), 2 => Just(1u8), 1 => 2u8..6],
-        0u8..16,
+        (0u8..16, prop_oneof![3 => Just(None), 1 => crate::engines::reqgrammar::generated_host_strategy().prop_map(Some)]),
         prop_oneof![2 => Just(None), 1 => Just(Some(443u16)), 1 => Just(Some(8443u16)), 1 => any::<u16>().prop_map(Some)],
         prop_oneof![4 => Just(0u8), 1 => Just(1u8), 1 => Just(2u8), 1 => Just(3u8), 1 => Just(4u8), 1 => Just(5u8), 1 => Just(6u8)],
         any::<u16>(),
         0u8..16,
         prop_oneof![5 => Just(true), 1 => Just(false)],
     )
-        .prop_map(|(scheme, host, port, peer, arg, alpn, client_tls)| TlsCase { scheme, host, port, peer, arg, alpn, client_tls })
+        .prop_map(|(scheme, (host, ghost), port, peer, arg, alpn, client_tls)| TlsCase { scheme, host, ghost, port, peer, arg, alpn, client_tls })
 }
